@@ -1695,3 +1695,93 @@ Proof.
       try (intros q0 j E; eapply Hoth; eauto).
     apply (AdjG_flip true). exact Hadj.
 Qed.
+
+(* ================================================================ qubit sets stay sorted and in range *)
+(* every qubit of every node is below [b] (no precondition: holds along the whole algorithm) *)
+Definition QR (b : nat) (st : state) : Prop := forall i q, In q (nqs (getn st i)) -> q < b.
+
+Lemma getn_mapi_any f st i :
+  getn (mapi f st) i = if i <? length st then f i (getn st i) else dnode.
+Proof.
+  destruct (Nat.ltb_spec i (length st)).
+  - apply getn_mapi; auto.
+  - apply getn_out. rewrite mapi_length. auto.
+Qed.
+
+Lemma QR_merge_right b st l r : QR b st -> QR b (merge_right st l r).
+Proof.
+  intros H i q. unfold merge_right. rewrite getn_mapi_any.
+  destruct (i <? length st); [|simpl; tauto].
+  destruct (i =? l); [|destruct (i =? r)]; simpl.
+  - intros Hq. apply sunion_In in Hq. destruct Hq; eapply H; eauto.
+  - apply H.
+  - apply H.
+Qed.
+
+Lemma QR_merge_left b st l r : QR b st -> QR b (merge_left st l r).
+Proof.
+  intros H i q. unfold merge_left. rewrite getn_mapi_any.
+  destruct (i <? length st); [|simpl; tauto].
+  destruct (i =? r); [|destruct (i =? l)]; simpl.
+  - intros Hq. apply sunion_In in Hq. destruct Hq; eapply H; eauto.
+  - apply H.
+  - apply H.
+Qed.
+
+Lemma QR_fuse_pair b st l r : QR b st -> QR b (fuse_pair st l r).
+Proof.
+  intros H. unfold fuse_pair.
+  destruct (_ && _); auto. destruct (_ <? _).
+  - destruct (between_ok _ _ _); auto. apply QR_merge_right; auto.
+  - destruct (between_ok _ _ _); auto. apply QR_merge_left; auto.
+Qed.
+
+Lemma QR_fuse_loop b k st : QR b st -> QR b (fuse_loop k st).
+Proof.
+  intros H. unfold fuse_loop. apply fold_left_inv; auto. clear st H. intros st i H.
+  unfold visit. destruct (nmarked _); auto. apply fold_left_inv; auto. clear H.
+  intros st' q H. unfold visit_q.
+  assert (QR b (match lookup (nright (getn st' i)) q with
+                | Some nb => if can_fuse st' i nb k then fuse_pair st' i nb else st'
+                | None => st' end)) as H1.
+  { destruct (lookup _ q); auto. destruct (can_fuse _ _ _ _); auto. apply QR_fuse_pair; auto. }
+  destruct (lookup (nleft _) q); auto. destruct (can_fuse _ _ _ _); auto. apply QR_fuse_pair; auto.
+Qed.
+
+Lemma QR_to_fused n b c : n <= b -> (forall g q, In g c -> In q (gqs g) -> q < b) -> QR b (to_fused n c).
+Proof.
+  intros Hnb Hc. unfold to_fused.
+  assert (forall st last, QR b st -> QR b (fst (fold_left (add_node n) c (st, last)))) as H.
+  { revert Hc. induction c as [|g c IH]; intros Hc st last Hst; cbn [fold_left]; auto.
+    rewrite (surjective_pairing (add_node n (st, last) g)). apply IH.
+    - intros; eapply Hc; eauto. right; auto.
+    - unfold add_node. cbn [fst]. intros i q. unfold getn.
+      destruct (lt_dec i (length st)) as [Hi|Hi].
+      + rewrite app_nth1 by (rewrite mapi_length; auto).
+        rewrite (mapi_nth _ st i dnode dnode Hi). cbn [nqs]. apply Hst.
+      + rewrite app_nth2 by (rewrite mapi_length; lia). rewrite mapi_length.
+        destruct (i - length st) as [|j]; simpl.
+        * unfold node_qs. destruct (gk g); intros Hq.
+          -- apply (proj1 (sort_set_In _ _)) in Hq. apply (Hc g q); [left; auto|auto].
+          -- apply (proj1 (sort_set_In _ _)) in Hq. apply (Hc g q); [left; auto|auto].
+          -- apply in_seq in Hq. lia.
+        * destruct j; simpl; tauto. }
+  apply H. intros i q. unfold getn. destruct i; simpl; tauto.
+Qed.
+
+Theorem fuse_groups_sorted_range n c k qs gs :
+  (forall g q, In g c -> In q (gqs g) -> q < n) ->
+  In (IGroup qs gs) (fuse_model n c k) -> ssorted qs /\ (forall q, In q qs -> q < n).
+Proof.
+  intros Hc H. unfold fuse_model, from_fused in H. apply in_flat_map in H.
+  destruct H as [nd [Hnd Hit]]. destruct (In_getn _ _ Hnd) as [i [Hi E]].
+  pose proof (fuse_final_inv n k c) as HI.
+  pose proof (QR_fuse_loop n k _ (QR_to_fused n n c (le_n n) Hc)) as HQ.
+  pose proof (inv_wf _ _ _ _ HI i Hi) as [Hs _]. rewrite E in Hs.
+  assert (qs = nqs nd) as ->.
+  { unfold node_items in Hit. destruct (nmarked nd); simpl in Hit.
+    - destruct (ngates nd) as [|g0 gs0]; [inversion Hit|].
+      destruct (is_ord g0); [inversion Hit|]. destruct Hit as [Hit|[]]. discriminate.
+    - destruct (ngates nd) as [|g0 [|g1 gs1]]; destruct Hit as [Hit|[]]; try discriminate; congruence. }
+  split; auto. intros q Hq. apply (HQ i q). rewrite E. exact Hq.
+Qed.
